@@ -189,7 +189,7 @@ def finish(pid, tier, seed, mod, shards, wall):
             new.append(v)
 
     # replay files
-    rdir = os.path.join(env.VERIF, "replays", pid)
+    rdir = os.path.join(env.VERIF, "replays", pid) if env.REPO == "/repo" else os.path.join(env.VERIF, "replays", ".scratch", pid)
     lines = []
     if new:
         os.makedirs(rdir, exist_ok=True)
